@@ -125,7 +125,7 @@ def _gir_shapes(tier):
             per, last = table[confirmed]
             if tier == "thorough":
                 small = list(range(0, 2 * per + last + 2))
-                big = sorted(set(range(2 * per + last + 2, 1501, 7)) | {1266, 1267, 1499, 1500})
+                big = sorted(set(range(2 * per + last + 2, 1501, 29)) | {1266, 1267, 1499, 1500})
             else:  # every block-boundary neighbourhood of the first three blocks, then a few long ones
                 small = sorted({0, 1, last - 1, last, last + 1, last + per - 1, last + per, last + per + 1, last + 2 * per, last + 2 * per + 1})
                 big = sorted({100, min(1500, 126 * per + last), min(1500, 126 * per + last + 1)})
